@@ -48,8 +48,8 @@ def cases(draw):
         "outf": draw(st.sampled_from(FEATS[:24])),
         "bias": draw(st.booleans()),
         "mode": draw(st.sampled_from(["exact", "real"])),
-        "entry": draw(st.sampled_from(["linear", "linear", "linear", "matmul", "mm", "bmm", "op", "routes"])),
-        "layout": draw(st.sampled_from(["contig", "contig", "transposed", "sliced"])),
+        "entry": draw(st.sampled_from(["linear", "linear", "linear", "matmul", "mm", "mm_other_axis0", "bmm", "op", "routes"])),
+        "layout": draw(st.sampled_from(["contig", "contig", "transposed", "sliced", "expanded"])),
         "ascale": draw(st.sampled_from(["absmax", "saturating", "drawn"])),
         "group": draw(st.integers(0, 3)),
         "per_tensor_w": draw(st.integers(0, 5)) == 0,
@@ -86,11 +86,30 @@ def lay_out(x, layout):
         return x.transpose(0, 1).contiguous().transpose(0, 1)
     if layout == "transposed" and x.ndim == 2:
         return x.t().contiguous().t()
+    if layout == "expanded":
+        # every leading index holds the same data (stride 0): the row stride is smaller than in_features
+        return x[:1].expand(x.shape)
     if layout == "sliced":
         big = torch.zeros((x.shape[0] * 2,) + tuple(x.shape[1:]), dtype=x.dtype)
         big[::2] = x
         return big[::2]
     return x
+
+
+def quantize_laid_out(xc, aq, scale, layout):
+    """quantize contiguous values, then give the PAYLOAD the requested strides through quanto's own transparent view ops
+    (quantizing a strided tensor yields a contiguous payload, so the layout must be applied afterwards)"""
+    if layout == "transposed" and xc.ndim >= 2:
+        q = SymmetricQuantizer.apply(xc.transpose(0, 1).contiguous(), aq, None, scale)
+        return q.transpose(0, 1)
+    if layout == "sliced":
+        big = torch.zeros((xc.shape[0] * 2,) + tuple(xc.shape[1:]), dtype=xc.dtype)
+        big[::2] = xc
+        return SymmetricQuantizer.apply(big, aq, None, scale)[::2]
+    if layout == "expanded":
+        q = SymmetricQuantizer.apply(xc[:1].contiguous(), aq, None, scale)
+        return q.expand(xc.shape)
+    return SymmetricQuantizer.apply(xc, aq, None, scale)
 
 
 def build(case):
@@ -106,9 +125,12 @@ def build(case):
         nnz = max(1, min(K, (2**p) // 32))
         xs, ws = 2.0**-3, 2.0**-2
         xc = sparse_codes(bshape + [K], nnz, -2, 2, g)
-        x = lay_out((xc * xs).to(dtype), case["layout"])
+        if case["layout"] == "expanded":
+            xc = xc[:1].expand(xc.shape).contiguous()
         if aq is not None:
-            x = SymmetricQuantizer.apply(x, aq, None, torch.tensor(xs, dtype=dtype))
+            x = quantize_laid_out((xc * xs).to(dtype), aq, torch.tensor(xs, dtype=dtype), case["layout"])
+        else:
+            x = lay_out((xc * xs).to(dtype), case["layout"])
         if wqt.bits == 8:
             wc = sparse_codes([N, K], K, -2, 2, g)
             rs = (2.0 ** torch.arange(N).remainder(3)).reshape(N, 1)
@@ -130,7 +152,8 @@ def build(case):
     # realistic magnitudes
     mag = [1.0, 1.0, 0.05, 20.0][case["seed"] % 4]
     x = gen.clamp_finite(torch.randn(bshape + [K], generator=g, dtype=torch.float64) * mag, dtype)
-    x = lay_out(x, case["layout"])
+    if case["layout"] == "expanded":
+        x = x[:1].expand(x.shape).contiguous()
     if aq is not None:
         s = absmax_scale(x, aq)
         if case["ascale"] == "saturating":
@@ -138,7 +161,9 @@ def build(case):
         elif case["ascale"] == "drawn":
             s = torch.tensor(mag / 40.0, dtype=dtype)
         s = torch.where(s > 0, s, torch.ones_like(s))
-        x = quantize_activation(x, aq, s)
+        x = quantize_laid_out(x, aq, s, case["layout"])
+    else:
+        x = lay_out(x, case["layout"])
     rowf = 10.0 ** (torch.rand(N, 1, generator=g, dtype=torch.float64) * 2 - 1)
     wf = gen.clamp_finite(torch.randn(N, K, generator=g, dtype=torch.float64) * 0.3 * rowf, dtype)
     if wqt.bits == 8 and (case["entry"] == "bmm" or case["per_tensor_w"]):
@@ -229,6 +254,18 @@ def exec_case(case):
             return out
         res = cut(lambda: torch.mm(x2, w.t()) + (b if b is not None else 0))
         judge(out, f"mm/{tagbase}", case, res, ref.reshape(-1, case["outf"]), mag.reshape(-1, case["outf"]), x, w, (case["rows"], case["outf"]), dtype)
+    elif entry == "mm_other_axis0":
+        # torch.mm(qx, other) where `other` (K, N) is quantized per-axis along its FIRST axis, i.e. the contraction axis
+        x2 = x.reshape(-1, case["inf"])
+        wt = w.dequantize().t().contiguous()  # (K, N) float
+        if wk == "lowbit" or wt.shape[0] == 1:
+            out.discard = True
+            return out
+        other = quantize_weight(wt, w.qtype, 0)
+        ref2 = (x2.dequantize() if isinstance(x2, QTensor) else x2).to(torch.float64) @ other.dequantize().to(torch.float64)
+        mag2 = (x2.dequantize() if isinstance(x2, QTensor) else x2).to(torch.float64).abs() @ other.dequantize().to(torch.float64).abs()
+        res = cut(torch.mm, x2, other)
+        judge(out, f"mm-other-axis0/{tagbase}", dict(case, mode="real"), res, ref2, mag2, x, other, (case["rows"], case["outf"]), dtype)
     elif entry == "bmm":
         # (B, R, K) x (B, K, N) with the same weight matrix in every batch
         x3 = x.reshape(1, -1, case["inf"])
@@ -282,14 +319,16 @@ def run_grid(ctx):
         for act in ACTS:
             for wq in WQ:
                 for (r, k, n) in TRIPLES:
-                    for entry in ("linear", "mm", "bmm"):
+                    for entry in ("linear", "mm", "bmm", "mm_other_axis0"):
                         for ptw in (False, True):
                             if ptw and wq in ("qint4", "qint2"):
                                 continue
                             if entry == "bmm" and not (ptw and wq == "qint8" and act == "qint8"):
                                 continue  # the quantized bmm path needs two per-tensor qint8 operands
+                            if entry == "mm_other_axis0" and (ptw or wq in ("qint4", "qint2")):
+                                continue
                             cs.append({"dtype": dt, "act": act, "wq": wq, "rows": r, "brank": 1 if entry != "linear" else 1 + (r % 2), "inf": k, "outf": n,
-                                       "bias": (r + k) % 2 == 0, "mode": "exact", "entry": entry, "layout": "contig", "ascale": "absmax", "group": 0,
+                                       "bias": (r + k) % 2 == 0, "mode": "exact", "entry": entry, "layout": "expanded" if (entry == "linear" and (r + k + n) % 5 == 0) else "contig", "ascale": "absmax", "group": 0,
                                        "per_tensor_w": ptw, "seed": ctx.seed * 1000 + r + 7 * k + 13 * n})
     from vlib.core import enumerate_cases
 
